@@ -55,8 +55,10 @@ func (fc *FCtx) evalCall(e *ast.CallExpr, st *State) []Val {
 	// chains that only feed dropped calls: ctx.EventManager(), ctx.Logger()
 	if isDropSource(name) {
 		fc.drop(name)
-		s := fc.U.opaque("Dropped")
-		return []Val{{T: fc.U.Const("dropped", s), S: s}}
+		fc.evalDroppedArgs(e, st)
+		rt := fc.resT(e)
+		s := fc.U.SortOf(rt)
+		return []Val{{T: fc.U.Fresh("dropped", s), S: s, GoT: rt}}
 	}
 	if strings.HasPrefix(name, "(interface).") && recvExpr != nil {
 		if id, ok := unparen(recvExpr).(*ast.Ident); ok {
@@ -136,7 +138,7 @@ var pureExternPrefixes = []string{
 	"(github.com/cosmos/cosmos-sdk/types.Coins).", "(github.com/cosmos/cosmos-sdk/types.DecCoins).", "(github.com/cosmos/cosmos-sdk/types.Coin).", "(github.com/cosmos/cosmos-sdk/types.DecCoin).",
 	"github.com/cosmos/cosmos-sdk/types.NewCoins", "github.com/cosmos/cosmos-sdk/types.NewCoin", "github.com/cosmos/cosmos-sdk/types.NewDecCoinsFromCoins", "github.com/cosmos/cosmos-sdk/types.NewDecCoins",
 	"github.com/cosmos/cosmos-sdk/types/address.Module",
-	"strings.", "bytes.", "encoding/hex.", "strconv.", "crypto/sha256.Sum256", "github.com/cosmos/cosmos-sdk/types/address.MustLengthPrefix",
+	"cosmossdk.io/errors.ABCIInfo", "strings.", "bytes.", "encoding/hex.", "strconv.", "crypto/sha256.Sum256", "github.com/cosmos/cosmos-sdk/types/address.MustLengthPrefix",
 	"(github.com/cosmos/cosmos-sdk/types.AccAddress).Bytes", "(github.com/cosmos/cosmos-sdk/types.ValAddress).Bytes",
 	"github.com/cosmos/cosmos-sdk/x/auth/types.NewModuleAddress",
 	"(github.com/cosmos/cosmos-sdk/x/staking/types.ValidatorI).", "(github.com/cosmos/cosmos-sdk/x/staking/types.Validator).",
@@ -200,15 +202,7 @@ func (fc *FCtx) pureExternCall(name string, fn *types.Func, e *ast.CallExpr, rec
 	for i := 0; i < sig.Results().Len(); i++ {
 		rt := sig.Results().At(i).Type()
 		s := fc.U.SortOf(rt)
-		fname := fmt.Sprintf("ext_%s_%d_r%d", sanitize(name), len(args), i)
-		var sn []string
-		for _, so := range sorts {
-			sn = append(sn, sanitize(so.Name))
-		}
-		fname += "_" + strings.Join(sn, "_")
-		if len(fname) > 200 {
-			fname = fname[:200]
-		}
+		fname := extFnName(name, sorts, i)
 		fc.U.Fun(fname, sorts, s)
 		v := Val{T: app(fname, ts...), S: s, GoT: rt}
 		st.assume(fc.U.WF(v))
@@ -886,4 +880,32 @@ func (fc *FCtx) evalDroppedArgs(e *ast.CallExpr, st *State) {
 			fc.evalMulti(a, st)
 		}()
 	}
+}
+
+func extFnName(name string, sorts []*Sort, resultIdx int) string {
+	fname := fmt.Sprintf("ext_%s_%d_r%d", sanitize(name), len(sorts), resultIdx)
+	var sn []string
+	for _, so := range sorts {
+		sn = append(sn, sanitize(so.Name))
+	}
+	fname += "_" + strings.Join(sn, "_")
+	if len(fname) > 200 {
+		fname = fname[:200]
+	}
+	return fname
+}
+
+// short aliases usable in specs through ext("Alias", args...)
+var extAliases = map[string]struct {
+	full string
+	ret  string // "Int", "Bool", "Str", or a Go type expression resolved in the spec's package
+}{
+	"Coins.AmountOf": {"(github.com/cosmos/cosmos-sdk/types.Coins).AmountOf", "Int"},
+	"Coins.IsZero":   {"(github.com/cosmos/cosmos-sdk/types.Coins).IsZero", "Bool"},
+	"Coins.IsAllGTE": {"(github.com/cosmos/cosmos-sdk/types.Coins).IsAllGTE", "Bool"},
+	"Coins.IsAllGT":  {"(github.com/cosmos/cosmos-sdk/types.Coins).IsAllGT", "Bool"},
+	"Coins.MulInt":   {"(github.com/cosmos/cosmos-sdk/types.Coins).MulInt", "sdk.Coins"},
+	"Coins.Add":      {"(github.com/cosmos/cosmos-sdk/types.Coins).Add", "sdk.Coins"},
+	"Coins.Sub":      {"(github.com/cosmos/cosmos-sdk/types.Coins).Sub", "sdk.Coins"},
+	"Coins.IsAnyGT":  {"(github.com/cosmos/cosmos-sdk/types.Coins).IsAnyGT", "Bool"},
 }
